@@ -197,10 +197,26 @@ func (dl *datalog) del(key []byte) error {
 	return nil
 }
 
+// sealSegment marks the segment as full.
+// Sync flushes only the current segment: the records appended to the segment so far have to be
+// flushed before the datalog moves on to another segment.
+func (dl *datalog) sealSegment(seg *segment) error {
+	if seg.meta.Full {
+		return nil
+	}
+	if err := seg.Sync(); err != nil {
+		return err
+	}
+	seg.meta.Full = true
+	return nil
+}
+
 func (dl *datalog) writeRecord(data []byte, rt recordType) (uint16, uint32, error) {
 	if dl.curSeg.meta.Full || dl.curSeg.size+int64(len(data)) > int64(dl.opts.maxSegmentSize) {
 		// Current segment is full, create a new one.
-		dl.curSeg.meta.Full = true
+		if err := dl.sealSegment(dl.curSeg); err != nil {
+			return 0, 0, err
+		}
 		if err := dl.swapSegment(); err != nil {
 			return 0, 0, err
 		}
